@@ -191,4 +191,8 @@ pub mod verif_hooks {
     pub fn utf8like_size(val: usize) -> usize {
         super::bitrepr::verif_hooks::utf8like_size(val)
     }
+
+    pub fn poison_scratch(seed: u64) {
+        super::bitrepr::verif_hooks::poison_scratch(seed);
+    }
 }
